@@ -2,7 +2,9 @@
     source on every run (DashuGen.FloatAddParams), are the ones the hand-written as-is models
     (AddModel.v) use - so the addition and sqrt theorems are about what the code says now. *)
 From Dashu Require Import Base.Prelude Float.RoundSpec Float.Contract Float.Model Float.AddModel.
-From DashuGen Require Import FloatAddParams.
+(* FloatAddParams last: its definitions are used while tools/translate.py recognises the fragments; the far-apart test
+   falls back to the copy tools/translate_c03_r3.py regenerates into FloatLongParams (it also reads the saturating form) *)
+From DashuGen Require Import FloatLongParams FloatAddParams.
 Open Scope Z_scope.
 
 Theorem add_source_constants :
